@@ -35,7 +35,7 @@ import (
 )
 
 const (
-	callTimeout = 8 * time.Second // per call; the machine may be heavily loaded by parallel shards and builds
+	callTimeout = 25 * time.Second // per call; the machine may be heavily loaded by parallel shards and builds
 	diskMaxBlob = 8 << 20         // disk.WithMaxBlobSize: Put refuses larger blobs before reading anything
 	srvMaxBlob  = 16 << 20        // max_cas_blob_size of the gRPC/HTTP front ends (so 8..16 MiB reaches Put)
 	emptySha    = "e3b0c44298fc1c149afbf4c8996fb92427ae41e4649b934ca495991b7852b855"
